@@ -178,6 +178,14 @@ def mwBucket (cfg : MwCfg) (limitText : Bytes) (o : Out) : MwObs :=
     else { status := 200, ran := true, limit := lim, remaining := rem, reset := rst, retryAfter := none }
   else { status := 200, ran := true, limit := lim, remaining := rem, reset := rst, retryAfter := none }
 
+/-- an option of `New` that sets a number only when it is positive (`WithRequestsPerSecond`, `WithBurst`) -/
+def applyPositive (cur opt : Int) : Int := if opt > 0 then opt else cur
+
+/-- `ratelimit.New`: the (rate, burst) the token bucket is built with — defaults 100 requests/s and burst 20, then
+    the options in the order they are given (Tie: `new_defaults`, `options_ignore_non_positive`) -/
+def newConfig (rateOpts burstOpts : List Int) : Int × Int :=
+  (rateOpts.foldl applyPositive 100, burstOpts.foldl applyPositive 20)
+
 /-! ## sliding window (`InMemoryStore` + `WithSlidingWindow`) -/
 
 /-- `windowEntry{current, previous, windowStart}`; `ws` in Unix seconds -/
